@@ -135,7 +135,17 @@ func GuardedIsAssignable(a px.Type, b px.Type, g px.Guard) bool {
 		}
 		return false
 	case *TypeAliasType:
-		return GuardedIsAssignable(a, b.resolvedType, g)
+		// the alias may lead back to itself without passing a type that guards (type B = Variant[B, C]): the
+		// comparison is guarded here the way TypeAliasType.IsAssignable guards an alias on the left
+		if g == nil {
+			g = make(px.Guard)
+		}
+		if g.Seen(a, b) {
+			return true
+		}
+		r := GuardedIsAssignable(a, b.resolvedType, g)
+		g.Done(a, b)
+		return r
 	case *VariantType:
 		return b.allAssignableTo(a, g)
 	}
